@@ -685,20 +685,86 @@ func (vc *VC) callFunc(fr *Frame, st *State, x *ssa.Call, callee *ssa.Function, 
 func (vc *VC) cutPoints(fr *Frame, st *State, keys []string, prefix string) {
 	if fr.cutHits == nil {
 		fr.cutHits = map[string]bool{}
+		fr.cutShift = map[string]int{}
 	}
+	// the clauses written for this site, plus clauses written for an earlier
+	// ordinal that could not be evaluated there (a call of the same callee was
+	// inserted before them: their locals were not in scope) and moved on
+	var origs []string
 	for _, key := range keys {
-		fr.cutHits[prefix+key] = true
+		h := strings.LastIndex(key, "#")
+		if h < 0 {
+			continue
+		}
+		base := key[:h]
+		k := 0
+		fmt.Sscanf(key[h+1:], "%d", &k)
+		for jj := 0; jj < k; jj++ {
+			o := fmt.Sprintf("%s%s#%d", prefix, base, jj)
+			if fr.cutShift[o] == k && !fr.cutHits[o] {
+				origs = append(origs, o)
+			}
+		}
+		origs = append(origs, prefix+key)
 	}
-	for _, key := range keys {
-		for _, gd := range fr.con.Ghosts[prefix+key] {
-			env := vc.loopEnvAt(fr, st)
-			for n, v := range fr.specVars {
-				env.vars[n] = v
+	mkEnv := func(vars map[string]*Val) *Env {
+		env := vc.loopEnvAt(fr, st)
+		for n, v := range vars {
+			env.vars[n] = v
+		}
+		// $arg<i>: the actual arguments of the call the cut point is attached to
+		for i, a := range fr.cutArgs {
+			env.vars[fmt.Sprintf("$arg%d", i)] = a
+		}
+		vc.bindCutResult(fr, env)
+		return env
+	}
+	for _, orig := range origs {
+		if len(fr.con.Ghosts[orig]) == 0 && len(fr.con.Asserts[orig]) == 0 {
+			continue
+		}
+		h := strings.LastIndex(orig, "#")
+		k := 0
+		fmt.Sscanf(keys[0][strings.LastIndex(keys[0], "#")+1:], "%d", &k)
+		_ = h
+		// can every clause be evaluated here?
+		trial := map[string]*Val{}
+		for n, v := range fr.specVars {
+			trial[n] = v
+		}
+		okHere := true
+		for _, gd := range fr.con.Ghosts[orig] {
+			env := mkEnv(trial)
+			v := env.eval(gd.E)
+			if env.err != nil || v == nil {
+				okHere = false
+				break
 			}
-			for i, a := range fr.cutArgs {
-				env.vars[fmt.Sprintf("$arg%d", i)] = a
+			trial[gd.Name] = v
+		}
+		for _, c := range fr.con.Asserts[orig] {
+			if !okHere {
+				break
 			}
-			vc.bindCutResult(fr, env)
+			env := mkEnv(trial)
+			if _, err := env.evalBool(c.E); err != nil {
+				okHere = false
+			}
+		}
+		if !okHere {
+			if fr.cutTries[orig] < 3 {
+				if fr.cutTries == nil {
+					fr.cutTries = map[string]int{}
+				}
+				fr.cutTries[orig]++
+				fr.cutShift[orig] = k + 1
+				continue
+			}
+			// give up moving: report where it stands
+		}
+		fr.cutHits[orig] = true
+		for _, gd := range fr.con.Ghosts[orig] {
+			env := mkEnv(fr.specVars)
 			v := env.eval(gd.E)
 			if env.err != nil || v == nil {
 				vc.oblige(st, "spec-error", "ghost/"+gd.Name, "false", gd.Pos, fmt.Sprint(env.err))
@@ -707,18 +773,8 @@ func (vc *VC) cutPoints(fr *Frame, st *State, keys []string, prefix string) {
 			// ghost variables are ordinary specification variables from here on
 			fr.specVars[gd.Name] = v
 		}
-	}
-	for _, key := range keys {
-		for _, c := range fr.con.Asserts[prefix+key] {
-			env := vc.loopEnvAt(fr, st)
-			for n, v := range fr.specVars {
-				env.vars[n] = v
-			}
-			// $arg<i>: the actual arguments of the call the cut point is attached to
-			for i, a := range fr.cutArgs {
-				env.vars[fmt.Sprintf("$arg%d", i)] = a
-			}
-			vc.bindCutResult(fr, env)
+		for _, c := range fr.con.Asserts[orig] {
+			env := mkEnv(fr.specVars)
 			g, err := env.evalBool(c.E)
 			if err != nil {
 				vc.oblige(st, "spec-error", "assert/"+c.Name, "false", c.Pos, err.Error())
